@@ -61,6 +61,7 @@ func Parse(filename string, data []byte) (*File, error) {
 		f.Meta[k] = v
 	}
 
+	seen := make(map[string]bool) // raw record names, to detect duplicates and cycles
 	for i := uint32(0); i < numHash; i++ {
 		headOff := hdrLen + hashOff + i*4
 		head := m.load32(headOff)
@@ -70,9 +71,10 @@ func Parse(filename string, data []byte) (*File, error) {
 			if !ok {
 				return corrupt()
 			}
-			if _, ok := f.Count[string(ename)]; ok {
+			if seen[string(ename)] {
 				return corrupt()
 			}
+			seen[string(ename)] = true
 			ctrName := DecodeStack(string(ename))
 			f.Count[ctrName] = v.Load()
 			off = next
